@@ -176,11 +176,12 @@ func (x *Exec) execStmt(st *State, s ast.Stmt) *State {
 		return x.execSelect(st, s, "")
 	case *ast.GoStmt:
 		// evaluate arguments; the body is a separate verification unit
+		var goArgs []T
 		for _, a := range s.Call.Args {
-			x.eval(st, a)
+			goArgs = append(goArgs, x.eval(st, a))
 		}
 		if lit, ok := s.Call.Fun.(*ast.FuncLit); ok {
-			x.countLit(lit)
+			x.checkLitRequires(st, lit, goArgs, "go")
 			x.note("goroutine body at %s is a separate unit (not executed inline)", x.posShort(s))
 		} else {
 			x.note("goroutine started at %s: callee effects not tracked", x.posShort(s))
